@@ -34,7 +34,7 @@ func init() {
 			return 36000
 		},
 		Run:      runC15,
-		Required: []string{"pairs_connected", "messages_crossed", "rsv1_frames_seen", "server_offers_checked", "client_replies_checked", "writers_left_open_for_the_next_message", "compression_toggled_with_open_writer", "pairs_with_offer_in_application_header"},
+		Required: []string{"pairs_connected", "messages_crossed", "rsv1_frames_seen", "server_offers_checked", "client_replies_checked", "writers_left_open_for_the_next_message", "compression_toggled_with_open_writer", "pairs_with_offer_in_application_header", "messages_of_70_to_300_kb_in_one_frame"},
 		Assumptions: []string{
 			"a client that did not offer permessage-deflate but is told by a (non-gorilla) server that it is in use is UNSPECIFIED",
 			"extension offers with quoting, upper case or malformed syntax are executed; only 'announce => offered and enabled' and 'compresses <=> announced' are demanded",
@@ -175,6 +175,9 @@ func c15PairOn(ctx *core.Ctx, out *core.Out, r *gen.R, idx int) {
 	// the application may put the offer into the request itself (under the RFC's own
 	// spelling of the header name) while Dialer.EnableCompression is off
 	appOffer := !dc && (idx/12)%3 == 1
+	// one pair in sixteen uses megabyte write buffers and messages of 70-300 KB, so that a whole
+	// (compressed) message travels as ONE frame of more than 64 KiB
+	big := (idx/12)%16 == 3
 	a, b := xport.NewPipe()
 	desc := map[string]interface{}{"family": "pair", "dialer_enable_compression": dc, "upgrader_enable_compression": uc, "offer_in_application_request_header": appOffer}
 	fail := func(sig, what string) {
@@ -193,10 +196,16 @@ func c15PairOn(ctx *core.Ctx, out *core.Out, r *gen.R, idx int) {
 			return
 		}
 		u := &ws.Upgrader{EnableCompression: uc, ReadBufferSize: []int{0, 512}[idx%2], CheckOrigin: func(*http.Request) bool { return true }}
+		if big {
+			u.WriteBufferSize = 1 << 20
+		}
 		c, err := u.Upgrade(newFakeRW(b, br, 4096), req, nil)
 		ch <- srvRes{c, err}
 	}()
 	d := ws.Dialer{EnableCompression: dc}
+	if big {
+		d.WriteBufferSize = 1 << 20
+	}
 	d.NetDial = nil
 	cc, _, err, _ := func() (*ws.Conn, *http.Response, error, *xport.Conn) {
 		dd := d
@@ -268,6 +277,10 @@ func c15PairOn(ctx *core.Ctx, out *core.Out, r *gen.R, idx int) {
 				}
 			}
 			p := r.Payload(r.Intn(gen.NPayloadClasses), r.BoundarySize(4096, 20000))
+			if big && i < 2 {
+				p = r.Payload(r.Intn(gen.NPayloadClasses), r.Range(70000, 300000))
+				out.Count("messages_of_70_to_300_kb_in_one_frame", 1)
+			}
 			// how the application writes it: WriteMessage; a writer it closes; a writer it
 			// leaves open (the next message closes it, as documented); a writer during whose
 			// life the compression setting is toggled (the open message keeps the setting
@@ -289,10 +302,15 @@ func c15PairOn(ctx *core.Ctx, out *core.Out, r *gen.R, idx int) {
 					dir.w.EnableWriteCompression(dir.enabled)
 					out.Count("compression_toggled_with_open_writer", 1)
 				}
-				for rest := p; len(rest) > 0 && err == nil; {
-					k := r.Range(1, len(rest))
-					_, err = w.Write(rest[:k])
-					rest = rest[k:]
+				if style == 3 && i%2 == 1 {
+					// streamed with io.Copy from a plain reader that returns its last bytes with io.EOF
+					_, err = io.Copy(w, onlyReader{&oddReader{data: p, piece: 1000, eofWith: true}})
+				} else {
+					for rest := p; len(rest) > 0 && err == nil; {
+						k := r.Range(1, len(rest))
+						_, err = w.Write(rest[:k])
+						rest = rest[k:]
+					}
 				}
 				if err == nil && (style != 4 || i == n-1) {
 					err = w.Close()
